@@ -5,12 +5,17 @@
 //! Use this in situations where multiple locations in the code should be able
 //! to update the inner value.
 
+#[cfg(not(eyeball_verif))]
 use std::{
     fmt,
     hash::Hash,
     ops,
     sync::{Arc, PoisonError, TryLockError, TryLockResult, Weak},
 };
+#[cfg(eyeball_verif)]
+use std::{fmt, hash::Hash, ops};
+#[cfg(eyeball_verif)]
+use verif_sync::{Arc, PoisonError, TryLockError, TryLockResult, Weak};
 
 use readlock::{SharedReadGuard, SharedReadLock};
 #[cfg(feature = "async-lock")]
@@ -44,9 +49,17 @@ pub struct SharedObservable<T, L: Lock = SyncLock> {
 
 impl<T> SharedObservable<T> {
     /// Create a new `SharedObservable` with the given initial value.
+    #[cfg(not(eyeball_verif))]
     #[must_use]
     pub fn new(value: T) -> Self {
         Self::from_inner(Arc::new(std::sync::RwLock::new(ObservableState::new(value))))
+    }
+
+    /// Create a new `SharedObservable` with the given initial value.
+    #[cfg(eyeball_verif)]
+    #[must_use]
+    pub fn new(value: T) -> Self {
+        Self::from_inner(Arc::new(verif_sync::RwLock::new(ObservableState::new(value))))
     }
 
     /// Obtain a new subscriber.
